@@ -114,6 +114,7 @@ def full_run(tier, seed, log=print):
     if r.an.build_errors:
         raise P.Undecided("the generated file does not compile (construct outside the supported subset, or a contract "
                           "no longer matches the source):\n" + "\n".join(r.an.build_errors[:5]))
+    r.final_text = final_text
     cascade_analysis(r, path, final_text)
     vr = r.res["out"].get("verification-results")
     if not vr:
@@ -243,6 +244,80 @@ def call_reach(em, lines, roots):
                 seen.add(c); todo.append(c)
     return seen
 
+REMOVABLE = ("post", "inv-front", "inv-end")
+
+def dep_whatif(r, prop, dep_fail, reach, known0):
+    """The dependency rule, made precise.  `dep_fail` are failed clauses of functions that property `prop` reaches by calls
+    (none of them tagged `prop`).  Re-verify with exactly those clauses REMOVED from the contracts (replaced by `true`: no
+    longer an obligation of the callee and no longer assumed by its callers; a failed loop-invariant conjunct likewise).
+    If every obligation tagged `prop` is still discharged, the property's proof does not rest on the broken clauses.
+    Returns (True, note) = independent, (False, note) = it does rest on them, (None, why) = cannot tell (a failed proof hint
+    or call precondition cannot be un-assumed this way; new failures keep appearing; the variant does not compile)."""
+    cache = r.__dict__.setdefault("_whatif_cache", {})
+    removed = set()
+    fails = list(dep_fail)
+    text = getattr(r, "final_text", None)
+    if text is None:
+        return None, "no generated text kept"
+    asserts = {}      # (line, col_start, col_end) of failed in-body assertions (proof hints) to be dropped as well
+    for rnd in range(8):
+        bad = []
+        for f in fails:
+            if f["ob"] and f["kind"] in REMOVABLE:
+                continue
+            sp = f.get("site_span")
+            if f["kind"] == "assert" and sp and sp["line_start"] == sp["line_end"]:
+                asserts[(sp["line_start"] - 1, sp["column_start"] - 1, sp["column_end"] - 1)] = f
+                continue
+            bad.append(f)
+        if bad:
+            return None, "a failed %s in %s cannot be un-assumed" % (bad[0]["kind"], bad[0]["fn"].split("::")[-1])
+        removed |= {f["ob"] for f in fails if f["ob"] and f["kind"] in REMOVABLE}
+        key = (tuple(sorted(removed)), tuple(sorted(asserts)))
+        if key in cache:
+            an2 = cache[key]
+        else:
+            lines = text.split("\n")
+            hit = 0
+            for i, l in enumerate(lines):
+                if "/*@ob " not in l:
+                    continue
+                for ob in removed:
+                    mk = "/*@ob %s*/" % ob
+                    if mk in l:
+                        ind = l[:len(l) - len(l.lstrip())]
+                        lines[i] = "%strue,  %s" % (ind, mk)
+                        hit += 1
+            if hit < len(removed):
+                return None, "clause text of a failed obligation not found"
+            # a failed `assert(X)` of a proof hint is assumed by Verus from there on: drop it (only the plain form)
+            for (ln, a, b) in sorted(asserts, key=lambda t: (t[0], -t[1])):
+                seg = lines[ln][a:b]
+                if not (seg.startswith("assert(") and seg.endswith(")")):
+                    return None, "a failed proof hint in %s cannot be un-assumed" % asserts[(ln, a, b)]["fn"].split("::")[-1]
+                lines[ln] = lines[ln][:a] + "assert(true)" + lines[ln][b:]
+            wpath = os.path.join(P.BUILD, "bcenv_depwhatif.rs")
+            open(wpath, "w").write("\n".join(lines))
+            an2 = P.analyse(P.run_verus(wpath), r.em, wpath)
+            cache[key] = an2
+        if an2.build_errors:
+            return None, "the variant without the failed clauses does not compile"
+        mine = [f for f in an2.failures if prop in P.failure_tags(f) and not f.get("cascade_of_panic")
+                and not match_known(f, prop, known0)]
+        base = {(g["fn"], g["ob"], g["kind"], g["site_line"]) for g in r.an.failures}
+        mine = [f for f in mine if (f["fn"], f["ob"], f["kind"], f["site_line"]) not in base]
+        if mine:
+            return False, "without %s, %s no longer verifies" % (", ".join(sorted(x.split("::")[-1] for x in removed))[:200] or "the failed hints",
+                                                                 ", ".join(sorted({(f["ob"] or ("%s@%s" % (f["kind"], f["fn"]))).split("::")[-1] for f in mine}))[:200])
+        more = [f for f in an2.failures if f["fn"] in reach and prop not in P.failure_tags(f) and not f.get("cascade_of_panic")
+                and (f["fn"], f["ob"], f["kind"], f["site_line"]) not in base
+                and not any(match_known(f, t, known0) for t in P.failure_tags(f))]
+        if not more:
+            return True, "re-verified without the failed clauses %s: every obligation of %s is still discharged" % (
+                ", ".join(sorted(x.split("::")[-1] for x in removed))[:300], prop)
+        fails = more
+    return None, "removing failed clauses keeps uncovering further failures"
+
 def decide(prop, r, tier, seed, meta):
     """Returns (exit_code, output_lines, evidence_dict)."""
     em = r.em
@@ -341,11 +416,17 @@ def decide(prop, r, tier, seed, meta):
         out.append("UNDECIDED property=%s: %s not discharged, but the enclosing function calls external functions that have no model here (%s); their results are unconstrained, so this is an unsupported construct, not a violation" % (
             prop, ",".join(fl)[:400], ", ".join(d.split("]")[0].split("[")[-1] for d in r.havoc)[:300]))
         code = 2
+    dep_note = None
     if dep_fail and not new_fail:
         # (an obligation of this property itself failing is a violation whatever else its callees do)
         fl = sorted({"%s (%s)" % (f["fn"].split(":")[-1], (f["ob"] or f["kind"]).split("#")[-1]) for f in dep_fail})
-        out.append("UNDECIDED property=%s: its obligations are discharged, but they rest on the contracts of functions they call, and these are no longer established: %s" % (prop, "; ".join(fl)[:500]))
-        code = 2
+        indep, why = dep_whatif(r, prop, dep_fail, reach, known0)
+        if indep is True:
+            # the failed clauses are not what this property's obligations rest on: decided, exit code unchanged
+            dep_note = "functions reached by this property fail clauses not tagged %s (%s); %s" % (prop, "; ".join(fl)[:300], why)
+        else:
+            out.append("UNDECIDED property=%s: its obligations are discharged, but they rest on the contracts of functions they call, and these are no longer established: %s [%s]" % (prop, "; ".join(fl)[:500], why))
+            code = 2
     if vac_bad:
         out.append("UNDECIDED property=%s: vacuity probe did not fail (contradictory requires/axioms?) in %s" % (prop, vac_bad[:5]))
         code = 2
@@ -375,6 +456,7 @@ def decide(prop, r, tier, seed, meta):
         if code == 0:
             code = 1
     ev = evidence(prop, r, tier, seed, meta, obs, panic, calls, new_fail, known_hit, fn_keys, n_obl, n_failed + n_known_clauses)
+    ev["coverage"]["dependency_rule"] = dep_note or "no function reached by this property fails a clause"
     return code, out, ev
 
 def outside_panic_sites(em):
